@@ -182,7 +182,6 @@ func crossOracles(nodes []*replayNode, all []string) []violation {
 		compacts += n.compacts
 	}
 	if compacts > 0 {
-		suffix = ":runner-compaction-on-but-invisible"
 		for _, n := range nodes {
 			if n.c.diverged {
 				suffix = ":runner-compaction-visible"
